@@ -15,6 +15,7 @@ macro_rules! dispatch {
     ($id:expr, $f:ident ( $($arg:expr),* )) => {
         match $id {
             "C01" => $f::<props::c01::C01>($($arg),*),
+            "C03" => $f::<props::c03::C03>($($arg),*),
             "C20" => $f::<props::c20::C20>($($arg),*),
             other => {
                 eprintln!("unknown property id {other}");
